@@ -66,14 +66,20 @@ type Config struct {
 	SwitchAt    []int64 // explicit global yield indices of pre-emptions (PCT-style); overrides MeanGap while not exhausted
 	HotBias     bool
 	HotSlack    int64
-	StallTask   int32 // -1 none: task excluded from choices for StallFor decisions after its first pre-emption
-	StallFor    int
-	LowPrio     int32 // -1 none: task only chosen when nothing else is runnable
-	Faults      []Fault
-	SiteFlags   []uint8
-	NumSites    int
-	Replay      []Segment // replay mode when Active && ReplayMode
-	ReplayMode  bool
+	// HotOnly: in addition to the ordinary pre-emptions, pre-empt at every hot site
+	// (a statement that touches package-level state or calls sync / sync/atomic) with
+	// probability HotProb percent. This enumerates the interleavings of exactly those
+	// statements densely - the shape of check-then-act windows on hidden shared state.
+	HotOnly    bool
+	HotProb    int64
+	StallTask  int32 // -1 none: task excluded from choices for StallFor decisions after its first pre-emption
+	StallFor   int
+	LowPrio    int32 // -1 none: task only chosen when nothing else is runnable
+	Faults     []Fault
+	SiteFlags  []uint8
+	NumSites   int
+	Replay     []Segment // replay mode when Active && ReplayMode
+	ReplayMode bool
 	// Free: free-running mode for library code that starts goroutines or blocks on
 	// channels (no seam for those): tasks are plain goroutines running truly in
 	// parallel, Yield only calls runtime.Gosched now and then. The race and
@@ -266,6 +272,13 @@ func Yield(site uint32) {
 	}
 	if len(st.cfg.Faults) != 0 {
 		deliverFaults(me, site)
+	}
+	if st.cfg.HotOnly && !st.cfg.ReplayMode && st.nopre == 0 && int(site) < len(st.cfg.SiteFlags) &&
+		st.cfg.SiteFlags[site]&FlagHot != 0 && st.switches < 4000 && rnd(100) < st.cfg.HotProb {
+		// extra pre-emption right before a statement that touches hidden shared state
+		st.budget--
+		switchOut(site, false)
+		return
 	}
 	st.budget--
 	if st.budget > 0 || st.nopre > 0 {
